@@ -355,6 +355,8 @@ class Spec:
 
 def judge(hist, obs, version, kind="base", persist="none"):
     """Walk the history; return the list of failures (each tagged with its property)."""
+    nocb = kind.endswith("-nocb")
+    kind = kind[:-5] if nocb else kind
     sp = Spec(version, kind)
     prev = None
     from .gw import Obs
@@ -428,6 +430,10 @@ def judge(hist, obs, version, kind="base", persist="none"):
                 pass
             sp.firmware = {}
         # ---- compare with the real observation -------------------------------------------
+        if exp_sent is not None and sp.kind == "mqtt":
+            # the MQTT gateway maps a command to topic levels + payload by decoding it again: a command whose
+            # payload holds the field separator cannot be expressed and is dropped by send() (C17's domain)
+            exp_sent = [s for s in exp_sent if len(s.rstrip().split(";")) == 6]
         if exp_sent is not None and ob.exc is None:
             if [s for s in ob.sent] != exp_sent:
                 prop = "C05"
@@ -437,7 +443,9 @@ def judge(hist, obs, version, kind="base", persist="none"):
                     prop = "C10"
                 sp.flag(prop, "reply-differs", f"emitted {ob.sent!r}, prescribed {exp_sent!r}", at,
                         op=k)
-            if exp_cbs is not None and list(ob.cbs) != [tuple(c[:5]) + (str(c[5]),) for c in exp_cbs]:
+            if nocb and ob.cbs:
+                sp.flag("C04", "callback-without-callback", "a callback was recorded although none is configured", at)
+            if not nocb and exp_cbs is not None and list(ob.cbs) != [tuple(c[:5]) + (str(c[5]),) for c in exp_cbs]:
                 sp.flag("C04", "callbacks-differ", f"callbacks {ob.cbs!r}, expected {exp_cbs!r}", at)
             if not ob.cb_state_ok:
                 sp.flag("C04", "callback-before-state", "state seen inside the callback differs from state after the step", at)
